@@ -7,3 +7,11 @@ j=s.index("	}\n	return fmt.Sprintf(\"<%T>\", v)")
 open('/verif/harness/cmd/zz_verif_rt.go','w').write(s[:i]+s[j:])
 t=open('/verif/harness/in_toto/zz_verif_replay_test.go').read().replace("package in_toto","package cmd",1)
 open('/verif/harness/cmd/zz_verif_replay_test.go','w').write(t[:t.index("// TestVerifRace")])
+
+# internal/spiffe
+import os
+os.makedirs('/verif/harness/internal/spiffe', exist_ok=True)
+s2=open('/verif/harness/cmd/zz_verif_rt.go').read().replace("package cmd","package spiffe",1)
+open('/verif/harness/internal/spiffe/zz_verif_rt.go','w').write(s2)
+t2=open('/verif/harness/cmd/zz_verif_replay_test.go').read().replace("package cmd","package spiffe",1)
+open('/verif/harness/internal/spiffe/zz_verif_replay_test.go','w').write(t2)
